@@ -33,7 +33,8 @@ WIDE = ["日本", "한글", "ａｂ", "é", "a​b", "😀", "ﬁ", "İ"]
 WIDE += ["❤\ufe0f", "1\ufe0f\u20e3", "👨\u200d👩\u200d👧", "e\u0301"]     # variation-selector, keycap and ZWJ sequences, combining mark
 MULTI = ["l\nm", "first\nsecond line", "\nlead"]
 CTRL = ["a\tb", "x\x07y", "e\x1b[0m", "r\rs", "z\x00"]
-NAMES = ["a", "b", "c", "name", "日本", "é", "wide_column_name_abcdefgh", "x y", "items", "n1"]
+NAMES = ["a", "b", "c", "name", "日本", "é", "wide_column_name_abcdefgh", "x y", "items", "n1", "", " "]       # "" is a name like any other
+EXOTIC = ["complex128", "complex64", "structured", "float16", "void"]
 OPT = [None, 1, 2, 5, 1000]
 
 
@@ -109,6 +110,9 @@ def _plan(draw, big):
             pick = draw(st.lists(st.integers(0, 3), min_size=1, max_size=3, unique=True))
             cols = [crafted[j] for j in pick] + cols[:draw(st.integers(0, 2))]
         plan["frame"] = {"n": n, "cols": cols}
+        if draw(st.integers(0, 7)) == 0:
+            # one more column of a dtype the usual builders do not produce ("for every dtype")
+            plan["exotic"] = [draw(st.sampled_from(EXOTIC)), draw(st.integers(0, len(cols)))]
         if cls == "geojson":
             plan["geometry"] = [draw(st.sampled_from([None, "Point", "Polygon", "MultiLineString"])) for _ in range(n)]
             plan["geometry_at"] = draw(st.integers(0, k))          # position of the geometry column among the others
@@ -119,6 +123,8 @@ def _plan(draw, big):
         n = draw(st.integers(0, 30 if big else 12))
         plan["kind"] = kind
         plan["vals"] = draw(_col_vals(kind, n, ctrl))
+        if draw(st.integers(0, 9)) == 0:
+            plan["exotic"] = [draw(st.sampled_from(EXOTIC)), 0]
         plan["opts"] = {"max_elements": draw(st.sampled_from(OPT))}
     else:
         n = draw(st.integers(0, 8))
@@ -264,6 +270,16 @@ def _check_frame_text(text, data, plan, labels=None):
         raise Violation("total row count stated although no rows are cut")
 
 
+def _exotic(name, n):
+    if name.startswith("complex"):
+        return np.array([[1 + 2j, complex("nan"), -0.5j, 1e300 + 0j, 0j][i % 5] for i in range(n)], dtype=name)
+    if name == "structured":
+        return np.array([(i, i / 2) for i in range(n)], dtype=[("p", np.int64), ("q", np.float64)])
+    if name == "float16":
+        return np.array([[1.5, float("nan"), 65504.0, -0.0][i % 4] for i in range(n)], dtype=np.float16)
+    return np.array([bytes([i % 256, 7, 0]) for i in range(n)], dtype="V3")
+
+
 def _np_int(v, how):
     """a count as the caller might pass it: a narrow NumPy integer scalar or a zero-dimensional array"""
     if how is None or v is None or isinstance(v, bool) or not isinstance(v, int):
@@ -302,6 +318,12 @@ def check(plan, ctx):
         ctx.cls("veckind_" + plan["kind"], "vec_len0" if not plan["vals"] else "vec_lenN")
     if cls in ("frame", "geojson"):
         data = build.frame(plan["frame"], rid=None)
+        if plan.get("exotic"):
+            kindname, at = plan["exotic"]
+            items = list(dict.items(data))
+            items.insert(min(at, len(items)), ("exo", _exotic(kindname, plan["frame"]["n"]).view(di.DataFrameColumn)))
+            data = di.DataFrame(dict(items))
+            ctx.cls("colkind_" + kindname)
         if cls == "geojson":
             g = np.empty(plan["frame"]["n"], dtype=object)
             for j, t in enumerate(plan["geometry"]):
@@ -338,6 +360,9 @@ def check(plan, ctx):
             ctx.cls("zero_columns")
     elif cls == "vector":
         v = build.vec(plan["kind"], plan["vals"])
+        if plan.get("exotic"):
+            v = di.Vector.fast(_exotic(plan["exotic"][0], len(plan["vals"])))
+            ctx.cls("veckind_" + plan["exotic"][0])
         before = build.snap_array(v)
         buf_opts = {k: v_ for k, v_ in opts.items() if v_ is not None}
         text = _render_all(v, {k: _np_int(v_, how) for k, v_ in buf_opts.items()}, "vector")
